@@ -132,7 +132,8 @@ def generate_structure_checks(env, res):
             for e in g.events:
                 if e[0] == "call" and e[1] == "weighted_choice" and e[3] is not False:
                     may_pass_empty = True
-    for names in (([],) if may_pass_empty else ()) + (["Mark"], ["Int", "Pop", "Dup"]):
+    ret_opt = str(prog.bodies[prog.find("::weighted_choice")].get("ret_ty", "")).startswith("std::option::Option<")
+    for names in (([],) if (may_pass_empty or ret_opt) else ()) + (["Mark"], ["Int", "Pop", "Dup"]):
         seen = set()
         for (r, pe, panics) in GA.weighted_choice_leaves(env, names):
             res.count("R01.a-choice")
@@ -140,6 +141,10 @@ def generate_structure_checks(env, res):
                 res.add("R01.a", "weighted_choice/panic", "weighted_choice(%r) can panic: %s %s" % (names, pe and pe.info, panics[:1]), lw)
                 continue
             v = r[1]
+            if ret_opt and not names:
+                if repr(v) != repr(GA.Opaque("none-for-empty")):
+                    res.add("R01.a", "weighted_choice/empty-not-none", "weighted_choice([]) returns %r; the generation loop relies on None for an empty list" % (v,), lw)
+                continue
             seen.add(getattr(v, "vname", None))
             if names and getattr(v, "vname", None) not in names:
                 res.add("R01.a", "weighted_choice/not-member", "weighted_choice(%r) can return %r, which is not an element of its argument" % (names, v), lw)
